@@ -20,15 +20,22 @@
 //!   tw      n                               get_twiddles / get_inv_twiddles
 //!   rowmat  n cols seed blowup off N        RowMatrix::evaluate_polys_over::<N> (off = g: evaluate_polys::<N>)
 //!   colmat  n cols seed blowup off          ColMatrix::interpolate_columns / evaluate_columns_over
+//!   airdom  n cols seed lde deg N           StarkDomain::new(&air) for an AIR of trace length n whose single transition
+//!                                           constraint has degree `deg` (constraint-evaluation blowup = max(2, next_pow2(deg-1)),
+//!                                           in general SMALLER than the LDE blowup `lde`): every accessor of the domain, then
+//!                                           ColMatrix::evaluate_columns_over and RowMatrix::evaluate_polys_over::<N> over it
 //! line := u permidx size index              fft::permute_index
 #![allow(dead_code, unused_variables, unused_imports, unused_mut)]
 use wf_harness::core::*;
 use wf_harness::fields::*;
 use wf_harness::oracle::*;
+use winter_air::{
+    Air, AirContext, Assertion, EvaluationFrame, FieldExtension, ProofOptions, TraceInfo, TransitionConstraintDegree,
+};
 use winter_math::{
     fft::{self, fft_inputs::FftInputs},
     fields::{f128, f62, f64, CubeExtension, QuadExtension},
-    FieldElement, StarkField,
+    ExtensibleField, FieldElement, StarkField,
 };
 use winter_prover::{
     matrix::{ColMatrix, RowMatrix},
@@ -330,7 +337,7 @@ fn twiddles<B: Fld>(twn: usize, inv: bool) -> Vec<B> {
 }
 
 // ------------------------------------------------------------------------------------ exec
-fn exec_e<B: Fld, E: FieldElement<BaseField = B>>(t: &[&str]) -> Outcome {
+fn exec_e<B: Fld + ExtensibleField<2> + ExtensibleField<3>, E: FieldElement<BaseField = B>>(t: &[&str]) -> Outcome {
     let d = E::EXTENSION_DEGREE;
     let m = B::MOD;
     let f = B::NAME;
@@ -614,6 +621,21 @@ fn exec_e<B: Fld, E: FieldElement<BaseField = B>>(t: &[&str]) -> Outcome {
                 _ => bad(),
             }
         },
+        ["airdom", n, cols, seed, lde, deg, w] => {
+            let (Some(n), Some(cols), Some(seed), Some(lde), Some(deg), Some(w)) =
+                (pu(n), pu(cols), p64(seed), pu(lde), pu(deg), pu(w))
+            else {
+                return bad();
+            };
+            match w {
+                1 => airdom::<B, E, 1>(n, cols, seed, lde, deg),
+                3 => airdom::<B, E, 3>(n, cols, seed, lde, deg),
+                4 => airdom::<B, E, 4>(n, cols, seed, lde, deg),
+                8 => airdom::<B, E, 8>(n, cols, seed, lde, deg),
+                16 => airdom::<B, E, 16>(n, cols, seed, lde, deg),
+                _ => bad(),
+            }
+        },
         ["colmat", n, cols, seed, blowup, off] => {
             let (Some(n), Some(cols), Some(seed), Some(blowup), Some(off)) = (pu(n), pu(cols), p64(seed), pu(blowup), poff::<B>(off))
             else {
@@ -779,6 +801,223 @@ fn rowmat<B: Fld, E: FieldElement<BaseField = B>, const W: usize>(
                     );
                     break 'rows;
                 }
+            }
+        }
+    }
+    o
+}
+
+// ------------------------------------------------------------------------------------ a minimal AIR
+/// An AIR that only carries a context: trace length, one transition constraint of the given degree, one assertion.
+/// `StarkDomain::new(&air)` reads its trace length, constraint-evaluation and LDE domain sizes and the offset.
+struct MiniAir<B: StarkField> {
+    ctx: AirContext<B>,
+}
+
+impl<B: StarkField + ExtensibleField<2> + ExtensibleField<3>> Air for MiniAir<B> {
+    type BaseField = B;
+    type PublicInputs = ();
+    type GkrProof = ();
+    type GkrVerifier = ();
+    fn new(trace_info: TraceInfo, _pub_inputs: (), options: ProofOptions) -> Self {
+        MiniAir { ctx: AirContext::new(trace_info, vec![TransitionConstraintDegree::new(2)], 1, options) }
+    }
+    fn context(&self) -> &AirContext<B> {
+        &self.ctx
+    }
+    fn evaluate_transition<E: FieldElement<BaseField = B>>(&self, _f: &EvaluationFrame<E>, _p: &[E], result: &mut [E]) {
+        for r in result.iter_mut() {
+            *r = E::ZERO;
+        }
+    }
+    fn get_assertions(&self) -> Vec<Assertion<B>> {
+        vec![Assertion::single(0, 0, B::ZERO)]
+    }
+}
+
+/// the constraint-evaluation blowup the AIR context derives from a constraint of degree `deg` (no periodic columns):
+/// the smallest power of two ≥ deg - 1, at least 2
+fn ce_blowup_of(deg: usize) -> usize {
+    let mut b = 1usize;
+    while b < deg.saturating_sub(1) {
+        b *= 2;
+    }
+    b.max(2)
+}
+
+/// `StarkDomain::new(&air)` with an LDE blowup `lde` and a constraint-evaluation blowup derived from `deg`; the
+/// accessors against independently computed values; both matrix evaluations over the LDE coset GENERATOR·ω_lde^i
+fn airdom<B: Fld + ExtensibleField<2> + ExtensibleField<3>, E: FieldElement<BaseField = B>, const W: usize>(
+    n: usize,
+    cols: usize,
+    seed: u64,
+    lde: usize,
+    deg: usize,
+) -> Outcome {
+    let d = E::EXTENSION_DEGREE;
+    let f = B::NAME;
+    let m = B::MOD;
+    let mut o = Outcome::ok("");
+    let ce = ce_blowup_of(deg);
+    // documented: TraceInfo (length ≥ 8, power of two, width 1..255), ProofOptions (blowup a power of two in 2..128),
+    // TransitionConstraintDegree (degree ≥ 1), AirContext (blowup ≥ constraint-evaluation blowup), ColMatrix (≥ 1 column)
+    let doc = cols == 0
+        || deg == 0
+        || !pow2(n)
+        || n < 8
+        || !pow2(lde)
+        || !(2..=128).contains(&lde)
+        || lde < ce
+        || (n * lde).trailing_zeros() > B::TWO_ADICITY;
+    let polys: Vec<Vec<u128>> = (0..cols).map(|c| gen_coords::<B>(seed.wrapping_add(c as u64), n, d, None)).collect();
+    let r = run(&mut o, format!("{}.airdom.panic", f), doc, || {
+        let options = ProofOptions::new(1, lde, 0, FieldExtension::None, 4, 31);
+        let ctx = AirContext::<B>::new(
+            TraceInfo::new(cols.clamp(1, 255), n),
+            vec![TransitionConstraintDegree::new(deg)],
+            1,
+            options,
+        );
+        let air = MiniAir { ctx };
+        let dom = StarkDomain::new(&air);
+        let acc = (
+            dom.trace_length(),
+            dom.lde_domain_size(),
+            dom.ce_domain_size(),
+            dom.trace_to_lde_blowup(),
+            dom.trace_to_ce_blowup(),
+            dom.ce_to_lde_blowup(),
+            dom.offset().canon(),
+            dom.trace_twiddles().iter().map(|x| x.canon()).collect::<Vec<u128>>(),
+            dom.ce_domain_generator().canon(),
+            [0usize, 1, n * ce / 2, n * ce - 1].map(|s| dom.get_ce_x_at(s).canon()),
+        );
+        let cm = ColMatrix::new(polys.iter().map(|c| to_elems::<B, E>(c)).collect::<Vec<Vec<E>>>());
+        let lde_cols = cm.evaluate_columns_over(&dom);
+        let lc: Vec<Vec<u128>> = (0..cols).map(|c| coords_of::<B, E>(lde_cols.get_column(c))).collect();
+        let rm: RowMatrix<E> = RowMatrix::evaluate_polys_over::<W>(&cm, &dom);
+        let cells: Vec<Vec<u128>> = (0..rm.num_rows()).map(|r| coords_of::<B, E>(rm.row(r))).collect();
+        let data: Vec<u128> = rm.data().iter().map(|x| x.canon()).collect();
+        (acc, lde_cols.num_rows(), lde_cols.num_cols(), lc, rm.num_rows(), rm.num_cols(), cells, data)
+    });
+    if let Some((acc, crows, ccols, lc, rrows, rcols, cells, data)) = r {
+        let (tl, lds, ces, t2l, t2c, c2l, off, tw, ceg, cex) = acc;
+        let flat_l: Vec<u128> = lc.iter().flatten().cloned().collect();
+        let flat_c: Vec<u128> = cells.iter().flatten().cloned().collect();
+        o.out = format!(
+            "{} {} {} {} {} {} {} {} | {} {} {} | {} {} {} {}",
+            tl,
+            lds,
+            ces,
+            t2l,
+            t2c,
+            c2l,
+            off,
+            summary(&tw, 1),
+            crows,
+            ccols,
+            summary(&flat_l, d),
+            rrows,
+            rcols,
+            summary(&flat_c, d),
+            summary(&data, 1)
+        );
+        // ---- accessors against independently computed values
+        let g = B::GENERATOR.canon();
+        let mut bad: Vec<String> = vec![];
+        if tl != n {
+            bad.push(format!("trace_length {} != {}", tl, n));
+        }
+        if lds != n * lde {
+            bad.push(format!("lde_domain_size {} != {}", lds, n * lde));
+        }
+        if ces != n * ce {
+            bad.push(format!("ce_domain_size {} != {}", ces, n * ce));
+        }
+        if t2l != lde {
+            bad.push(format!("trace_to_lde_blowup {} != {}", t2l, lde));
+        }
+        if t2c != ce {
+            bad.push(format!("trace_to_ce_blowup {} != {}", t2c, ce));
+        }
+        if c2l != lde / ce {
+            bad.push(format!("ce_to_lde_blowup {} != {}", c2l, lde / ce));
+        }
+        if off != g {
+            bad.push(format!("offset {} != GENERATOR {}", off, g));
+        }
+        match (omega::<B>(n), omega::<B>(n * ce)) {
+            (Ok(w), Ok(wce)) => {
+                if tw.len() != n / 2 {
+                    bad.push(format!("{} trace twiddles, expected {}", tw.len(), n / 2));
+                } else {
+                    let k = n.trailing_zeros();
+                    for i in 0..n / 2 {
+                        if tw[i] != pm(w, brev(k - 1, i as u128), m) {
+                            bad.push(format!("trace twiddle {} is not w^bitrev({})", i, i));
+                            break;
+                        }
+                    }
+                }
+                if ceg != wce {
+                    bad.push("ce_domain_generator is not the root of unity of the constraint-evaluation domain".into());
+                }
+                for (s, x) in [0usize, 1, n * ce / 2, n * ce - 1].iter().zip(cex.iter()) {
+                    if *x != mm(pm(wce, *s as u128, m), g, m) {
+                        bad.push(format!("get_ce_x_at({}) is not offset*g_ce^{}", s, s));
+                    }
+                }
+            },
+            (Err(e), _) | (_, Err(e)) => bad.push(e),
+        }
+        if !bad.is_empty() {
+            o = o.fail(format!("{}.airdom.accessor", f), bad.join("; "));
+        }
+        // ---- both matrix evaluations: n*lde rows over the LDE coset GENERATOR·ω_lde^i
+        if crows != n * lde || ccols != cols {
+            o = o.fail(
+                format!("{}.airdom.cols.shape", f),
+                format!("evaluate_columns_over returned {}x{}, the LDE domain has {} points and there are {} columns", crows, ccols, n * lde, cols),
+            );
+        } else {
+            let per_col = budget::<B>() / cols.max(1);
+            for c in 0..cols {
+                let before = o.fails.len();
+                o = check_evals_budget::<B>(o, "airdom.cols", &polys[c], d, &lc[c], n * lde, g, seed ^ c as u64, per_col);
+                if o.fails.len() > before {
+                    break;
+                }
+            }
+        }
+        if rrows != n * lde || rcols != cols {
+            o = o.fail(
+                format!("{}.airdom.rows.shape", f),
+                format!("evaluate_polys_over returned {}x{}, expected {}x{}", rrows, rcols, n * lde, cols),
+            );
+        } else {
+            let base_cols = cols * d;
+            let width = (base_cols + W - 1) / W * W;
+            if data.len() != rrows * width {
+                o = o.fail(format!("{}.airdom.rows.data-len", f), format!("{} != {}*{}", data.len(), rrows, width));
+            }
+            match omega::<B>(rrows) {
+                Err(e) => o = o.fail(format!("{}.airdom.rows.domain", f), e),
+                Ok(w) => {
+                    let cost_per_row = n * cols * d;
+                    'rows: for r in positions(rrows, cost_per_row, budget::<B>(), seed) {
+                        let x = mm(g, pm(w, r as u128, m), m);
+                        for c in 0..cols {
+                            let e = horner(&polys[c], d, x, m);
+                            if e[..] != cells[r][c * d..(c + 1) * d] {
+                                o = o.fail(
+                                    format!("{}.airdom.rows.value", f),
+                                    format!("cell (row {}, col {}) is not polynomial {} at GENERATOR*w_lde^{}", r, c, c, r),
+                                );
+                                break 'rows;
+                            }
+                        }
+                    }
+                },
             }
         }
     }
@@ -966,6 +1205,32 @@ fn gen_all(rng: &mut Rng, tier: Tier, nrand: usize, emit: &mut dyn FnMut(String)
                     }
                 }
             }
+            // ---- domains built by StarkDomain::new(&air): the constraint-evaluation blowup (from the constraint degree)
+            // is in general smaller than the LDE blowup; every (ce, lde) pair with ce <= lde, several shapes
+            for (deg, ce) in [(1usize, 2usize), (2, 2), (3, 2), (4, 4), (5, 4), (6, 8), (9, 8), (10, 16), (17, 16), (33, 32), (65, 64), (66, 128)] {
+                let mut lde = 2usize;
+                while lde <= 128 {
+                    if lde >= ce {
+                        let k = if lde >= 32 { 3 } else { 3 + ((deg + lde.trailing_zeros() as usize) % 3) as u32 };
+                        let cols = [1usize, 3, 7, 8, 9, 17][(deg + lde.trailing_zeros() as usize) % 6];
+                        let w = [8usize, 8, 4, 3, 1, 16][(deg * 7 + lde.trailing_zeros() as usize) % 6];
+                        if base || (deg + lde.trailing_zeros() as usize) % 2 == 0 || thorough {
+                            emit(format!("{} {} airdom {} {} {} {} {} {}", f, d, 1usize << k, cols, rng.u64(), lde, deg, w));
+                        }
+                    }
+                    lde *= 2;
+                }
+            }
+            if base {
+                // the prover's shapes: degree-2 constraints with blowup 8 / 16, the trace sizes around the thresholds
+                for (k, lde, deg) in [(8u32, 8usize, 2usize), (9, 8, 3), (10, 4, 2), (10, 16, 5)] {
+                    emit(format!("{} {} airdom {} 9 {} {} {} 8", f, d, 1usize << k, rng.u64(), lde, deg));
+                }
+            }
+            // malformed: blowup below the constraint-evaluation blowup, short trace, zero degree, blowup out of range
+            for (n, cols, lde, deg) in [(8usize, 2usize, 2usize, 5usize), (4, 2, 4, 2), (8, 2, 4, 0), (8, 2, 256, 2), (8, 2, 1, 2), (8, 0, 4, 2), (12, 2, 4, 2), (8, 2, 6, 2)] {
+                emit(format!("{} {} airdom {} {} {} {} {} 8", f, d, n, cols, rng.u64(), lde, deg));
+            }
             // large matrices on both sides of the thresholds (prover's width)
             if base {
                 for (k, cols) in [(9u32, 9usize), (10, 8), (10, 17), (11, 7)] {
@@ -1058,6 +1323,15 @@ fn gen_all(rng: &mut Rng, tier: Tier, nrand: usize, emit: &mut dyn FnMut(String)
                 let o2 = rng.below((stride - cnt + 1) as u64) as usize;
                 emit(format!("{} {} fftraw {} {} {} {} {}", f, d, n, rng.u64(), cnt, stride, o2))
             },
+            6 if i % 16 == 6 => {
+                let kk = rng.range(3, 6) as u32;
+                let cols = rng.range(1, 20) as usize;
+                let deg = rng.range(1, 20) as usize;
+                let ce = ce_blowup_of(deg);
+                let lde = ce << rng.range(0, 3);
+                let w = *rng.pick(&[1usize, 3, 4, 8, 8, 16]);
+                emit(format!("{} {} airdom {} {} {} {} {} {}", f, d, 1usize << kk, cols, rng.u64(), lde.min(128), deg, w))
+            },
             6 => {
                 let kk = rng.range(1, 6) as u32;
                 let cols = rng.range(1, 40) as usize;
@@ -1125,7 +1399,8 @@ impl Prop for P {
     }
     fn rule(&self) -> &'static str {
         "every transform (evaluate_poly, evaluate_poly_with_offset, interpolate_poly(_with_offset), fft_in_place(_raw), permute, \
-         get_(inv_)twiddles, infer_degree, RowMatrix::evaluate_polys(_over), ColMatrix::interpolate_columns/evaluate_columns_over) \
+         get_(inv_)twiddles, infer_degree, RowMatrix::evaluate_polys(_over), ColMatrix::interpolate_columns/evaluate_columns_over, StarkDomain::from_twiddles and \
+         StarkDomain::new(&air) with every pair constraint-evaluation blowup <= LDE blowup and all domain accessors) \
          at every size 2^1..2^12 (2^14 thorough) over f64/f62/f128 and their quadratic/cubic extensions, offsets 1/generator/random, \
          blowups 1..128, 1/7/8/9/16/17/255 columns with segment widths 1/3/4/8/16, every degree for n ≤ 32 and boundary degrees \
          above, count/stride/offset windows of the strided recursion, plus a malformed stream (sizes not powers of two, wrong \
